@@ -6,6 +6,16 @@ use std::convert::TryInto;
 use std::io::{self, Read, Seek, SeekFrom, Write};
 
 pub fn tier_thorough() -> bool { std::env::var("VERIF_TIER").map(|t| t == "thorough").unwrap_or(false) }
+/// What an error returned by grenad *is*, independent of how grenad chooses to print it: the variant, and for the variants that
+/// wrap a component's error that error's own text (C12 fixes what is returned, not its Display)
+pub fn err_str<U: std::fmt::Display>(e: &grenad::Error<U>) -> String {
+    match e {
+        grenad::Error::Io(i) => format!("Io[{:?}] {}", i.kind(), i),
+        grenad::Error::Merge(u) => format!("Merge {}", u),
+        grenad::Error::InvalidCompressionType => "InvalidCompressionType".to_string(),
+        grenad::Error::InvalidFormatVersion => "InvalidFormatVersion".to_string(),
+    }
+}
 /// built with the dev profile (debug assertions / overflow checks on): tests reduce their volume
 pub fn profile_dev() -> bool { std::env::var("VERIF_PROFILE").map(|t| t == "dev").unwrap_or(false) }
 pub fn seed() -> u64 { std::env::var("VERIF_SEED").ok().and_then(|s| s.parse().ok()).unwrap_or(0) }
